@@ -213,7 +213,7 @@ func (x *Exec) instr(st *State, fr *Frame, b *ssa.BasicBlock, i int, in ssa.Inst
 	case *ssa.UnOp:
 		return x.unop(st, fr, b, i, v)
 	case *ssa.BinOp:
-		fr.regs[v] = x.binop(st, v.Op, x.get(st, fr, v.X), x.get(st, fr, v.Y), v.X.Type(), v.Type())
+		fr.regs[v] = st.nameBig(x.binop(st, v.Op, x.get(st, fr, v.X), x.get(st, fr, v.Y), v.X.Type(), v.Type()))
 		return false
 	case *ssa.FieldAddr:
 		base := x.get(st, fr, v.X)
@@ -292,7 +292,7 @@ func (x *Exec) instr(st *State, fr *Frame, b *ssa.BasicBlock, i int, in ssa.Inst
 		fr.regs[v] = x.get(st, fr, v.X)
 		return false
 	case *ssa.Convert:
-		fr.regs[v] = x.convert(st, x.get(st, fr, v.X), v.X.Type(), v.Type())
+		fr.regs[v] = st.nameBig(x.convert(st, x.get(st, fr, v.X), v.X.Type(), v.Type()))
 		return false
 	case *ssa.MultiConvert:
 		fr.regs[v] = x.convert(st, x.get(st, fr, v.X), v.X.Type(), v.Type())
@@ -765,7 +765,7 @@ func (x *Exec) indexAddr(st *State, fr *Frame, v *ssa.IndexAddr) Val {
 	case *types.Slice:
 		s := base.(Term)
 		x.implicitPanic(st, Or(Lt(idx, TInt(0)), Ge(idx, slLen(s))), "index", "slice index out of range")
-		return &PElem{Arr: slArr(s), Idx: Add(slOff(s), idx), Elem: xt.Elem()}
+		return &PElem{Arr: slArr(s), Idx: st.slIx(s, idx), Elem: xt.Elem()}
 	case *types.Pointer:
 		at := under(xt.Elem()).(*types.Array)
 		p, ok := base.(*PRef)
@@ -1008,21 +1008,21 @@ func (x *Exec) enterBlock(st *State, from, to *ssa.BasicBlock) {
 				unsup("back edge to loop %d without active cut", n)
 			}
 			for k, inv := range spec.Invariants {
-				g := x.evalClauseBool(st, fr, inv, nil)
+				g := x.evalClauseBool(st, fr, inv, nil, 1)
 				x.oblige(st, fmt.Sprintf("loop%d.preserved%s", n, invLabel(inv, k)), nil, g, "loop invariant preserved: "+inv.Src)
 			}
 			x.frameCheck(st, fr, lc.base, lc.wm, spec.Modifies, lc.base, fmt.Sprintf("loop%d.frame", n))
 			return
 		}
 		for k, inv := range spec.Invariants {
-			g := x.evalClauseBool(st, fr, inv, nil)
+			g := x.evalClauseBool(st, fr, inv, nil, 1)
 			x.oblige(st, fmt.Sprintf("loop%d.entry%s", n, invLabel(inv, k)), nil, g, "loop invariant on entry: "+inv.Src)
 		}
 		x.havocLoop(st, fr, to, spec)
 		lc := &loopCtx{base: st.snapshot(), wm: st.wmNow(), spec: spec, header: to.Index}
 		fr.loopOn[to.Index] = lc
 		for _, inv := range spec.Invariants {
-			st.assume(x.evalClauseBool(st, fr, inv, nil))
+			st.assume(x.evalClauseBool(st, fr, inv, nil, -1))
 		}
 		x.runFrom(st, to, 0)
 		return
